@@ -32,6 +32,10 @@ HOSTILE_VALUES = ["v", "a\"b", "a\\b", "\x0b", "\x7f", "caf\xe9", "\x01\x02", "a
 USERS = [b"user", b"evil\nuser", b"evil\r\nFAKE 200", b"\xff\xfe", b"a\"b", b"", b"u\x00v", b"caf\xc3\xa9", b"line\x0bvt", b"x\x85y"]
 
 
+RAW_CREDENTIALS = ["Basic \xe9\xe8\xff", "basic YWxp\xb7Y2U6cHc=", "Basic !!!", "Basic", "Basic ", "Basic YWJj", "Basic a", "Basic =", "Basic ====",
+                   "Bearer tok\xe9n", "Basic YWxpY2U6cHc=\xa0", "Basic \xa0YWxpY2U6cHc=", "Basic YW xp", "Digest username=\"x\"", "Basic /w==", "Basic 5Q=="]
+
+
 @st.composite
 def request_st(draw):
     r = draw(gen_app.request_head())
@@ -44,7 +48,11 @@ def request_st(draw):
     if draw(st.integers(0, 2)) == 0:
         u = draw(st.sampled_from(USERS))
         scheme = draw(st.sampled_from(["Basic", "basic", "BASIC", "Basic "]))
-        extra.append(["Authorization", scheme + " " + base64.b64encode(u + b":pw").decode()])
+        if draw(st.integers(0, 3)) == 0:
+            # credentials that are not base64 at all (obs-text, bad padding, no colon after decoding) or another scheme
+            extra.append(["Authorization", draw(st.sampled_from(RAW_CREDENTIALS))])
+        else:
+            extra.append(["Authorization", scheme + " " + base64.b64encode(u + b":pw").decode()])
     if draw(st.integers(0, 11)) == 0:
         extra.append(draw(st.sampled_from([["Bad Header", "x"], ["X-Nul", "a\x00b"], ["Content-Length", "abc"], ["X-LF", "a\nb"],
                                            ["Transfer-Encoding", "bogus"]])))
@@ -66,7 +74,7 @@ def strategy(tier):
     })
 
 
-REC = re.compile(r"^S=(\S*) B=(\S*) b=(\S*) \|", re.S)
+REC = re.compile(r"^S=(\S*) B=(\S*) b=(\S*) id=(\S*) \|", re.S)
 
 
 def _double_logged(records, calls, data):
@@ -80,12 +88,13 @@ def _double_logged(records, calls, data):
 
 def run_case(case):
     kind = case["kind"]
-    fmt = "S=%(s)s B=%(B)s b=%(b)s |" + " ".join(case["atoms"]) + "|END"
+    fmt = "S=%(s)s B=%(B)s b=%(b)s id=%({x-req-id}i)s |" + " ".join(case["atoms"]) + "|END"
     cfg = wenv.make_cfg(keepalive=case["keepalive"], sendfile=case["sendfile"], worker_connections=10, threads=2,
                         accesslog="-", access_log_format=fmt)
     reqs = case["requests"]
     progs = case["progs"]
-    raw = "".join(gen_app.render_request(r, r.get("extra", ())) for r in reqs).encode("latin-1")
+    # every request carries its own number: a record is attributable to the request it describes
+    raw = "".join(gen_app.render_request(r, [["X-Req-Id", "r%d" % i]] + list(r.get("extra", ()))) for i, r in enumerate(reqs)).encode("latin-1")
     app = wenv.AppProgram(progs)
     env = wenv.Env(kind, cfg, app)
     sf = case.get("send_fault")
@@ -140,6 +149,13 @@ def run_case(case):
         V("one-record-per-request", "record-count:%s" % ("too-few" if len(records) < lo else "too-many"),
           {"records": len(records), "completed_calls": completed, "calls": len(calls), "requests": len(reqs),
            "send_fault": sf, "send_errors": sock.send_errors}, {"min": lo, "max": hi})
+    # ---- attribution: no request is described by two records (the known double record of a failed call has its own signature above)
+    if not vio:
+        ids = [REC.match(r).group(4) for r in records if REC.match(r)]
+        dup = sorted(set(x for x in ids if x != "-" and ids.count(x) > 1))
+        if dup and not _double_logged(records, calls, data):
+            V("one-record-per-request", "two-records-for-one-request:%s" % ("after-a-rejected-message" if rejected else "same-call"),
+              {"duplicated": dup, "records": records[:4]}, "each request logged once")
     # ---- truthfulness (only when nothing interfered with sending)
     nontrivial = hostile
     if not vio and not sock.send_errors:
@@ -166,7 +182,10 @@ def run_case(case):
             m = REC.match(records[i])
             if not m:
                 break
-            s, B, b = m.groups()
+            s, B, b, rid = m.groups()
+            if rid != "r%d" % i:
+                V("record-describes-its-request", "record-attributed-to-another-request", {"record": records[i], "position": i}, "id=r%d" % i)
+                break
             if s != str(resp.status):
                 V("status-truthful", "logged-status-differs", {"logged": s, "wire": resp.status, "record": records[i]}, resp.status)
                 break
